@@ -3,7 +3,7 @@
    ocaml/drv_c10.ml) can recompute it from the primary inputs.
    One scenario per input line; commands separated by " ; ":
      new k=v ...          as in h_sess.c plus  grp=<c groups,..> sgrp=<s groups,..> shares=<n> sig=<c sigalgs hex,..> ec=<256|384|521: client curve, TLS 1.2>
-                          ssig=<s sigalgs> pad=<tls13BlockSize>
+                          ssig=<s sigalgs> pad=<tls13BlockSize> psk=1 (external TLS 1.3 PSK) spsk=<0 server without it|2 server with another> psklen=<n> rotate=1 (server ticket keys replaced before this session)
      hs                   pump until quiescent, logging every record on the wire (global order)
      app <c|s> <len> <b>  application send of <len> bytes (byte i = (b + i) & 255), pump, print what the peer's
                           application received (ok=1 iff identical) - records are logged as well
@@ -106,8 +106,21 @@ psRes_t __wrap_psVerifySig(psPool_t *pool, const unsigned char *d, psSizeL_t dl,
 }
 
 /* ------------------------------------------------------------------ API entry points: who is running */
-static uint16_t g_cgrp[8], g_sgrp[8], g_csig[16], g_ssig[16]; static int g_ncgrp, g_nsgrp, g_ncsig, g_nssig, g_shares = 1, g_pad, g_cec;
+static uint16_t g_cgrp[8], g_sgrp[8], g_csig[16], g_ssig[16]; static int g_ncgrp, g_nsgrp, g_ncsig, g_nssig, g_shares = 1, g_pad, g_cec, g_spsk = 1, g_psklen, g_rotate;
 static int side_of(ssl_t *s) { return s == g_s.ssl ? 1 : 0; }
+/* external TLS 1.3 PSK (sess.h psk=1 loads the same PSK into both key sets): spsk=0 the server gets none, spsk=2 the server
+   gets another identity with another key (either way it declines the client's offer -> certificate handshake);
+   psklen=<n> both get an n-byte key instead of the 32-byte one */
+int32_t __real_matrixSslLoadTls13Psk(sslKeys_t *keys, const unsigned char *key, psSize_t keyLen, const unsigned char *id, psSize_t idLen, const psTls13SessionParams_t *params);
+int32_t __wrap_matrixSslLoadTls13Psk(sslKeys_t *keys, const unsigned char *key, psSize_t keyLen, const unsigned char *id, psSize_t idLen, const psTls13SessionParams_t *params)
+{
+    static unsigned char k2[64]; static const unsigned char id2[] = "verif-other-psk-id";
+    int server = (keys == g_s.keys);
+    if (server && g_spsk == 0) return 0;
+    if (g_psklen > 0 && g_psklen <= 64) { for (int i = 0; i < g_psklen; i++) k2[i] = (unsigned char) (0x30 + i); key = k2; keyLen = (psSize_t) g_psklen; }
+    if (server && g_spsk == 2) { for (int i = 0; i < 64; i++) k2[i] = (unsigned char) (0xc0 + i); return __real_matrixSslLoadTls13Psk(keys, k2, keyLen, id2, sizeof(id2) - 1, params); }
+    return __real_matrixSslLoadTls13Psk(keys, key, keyLen, id, idLen, params);
+}
 int32_t __real_matrixSslNewClientSession(ssl_t **ssl, const sslKeys_t *keys, sslSessionId_t *sid, const psCipher16_t cs[], uint8_t n, sslCertCb_t cb,
                                          const char *name, tlsExtension_t *ext, sslExtCb_t extCb, sslSessOpts_t *o);
 int32_t __wrap_matrixSslNewClientSession(ssl_t **ssl, const sslKeys_t *keys, sslSessionId_t *sid, const psCipher16_t cs[], uint8_t n, sslCertCb_t cb,
@@ -125,6 +138,12 @@ int32_t __real_matrixSslNewServerSession(ssl_t **ssl, const sslKeys_t *keys, ssl
 int32_t __wrap_matrixSslNewServerSession(ssl_t **ssl, const sslKeys_t *keys, sslCertCb_t cb, sslSessOpts_t *o)
 {
     g_cur = 1;
+    if (g_rotate) {      /* the server has rotated its ticket keys: tickets of the previous session can no longer be opened */
+        static unsigned char tn[16] = "verif-ticketkey", tn2[16] = "verif-ticketke2", sk[32], hk[32];
+        memset(sk, 0x11, 32); memset(hk, 0x22, 32);
+        matrixSslDeleteSessionTicketKey((sslKeys_t *) keys, tn);
+        matrixSslLoadSessionTicketKeys((sslKeys_t *) keys, tn2, sk, 32, hk, 32);
+    }
     if (g_nsgrp) matrixSslSessOptsSetKeyExGroups(o, g_sgrp, (psSize_t) g_nsgrp, 1);
     if (g_nssig) matrixSslSessOptsSetSigAlgs(o, g_ssig, (psSize_t) g_nssig);
     if (g_pad) o->tls13BlockSize = (psSizeL_t) g_pad;
@@ -291,7 +310,7 @@ static int parse_u16(const char *s, uint16_t *out, int max, int base) { int n = 
 static void do_new(char **a, int n)
 {
     scfg_t c; memset(&c, 0, sizeof c); c.cca = 1; c.seed = 1;
-    g_ncgrp = g_nsgrp = g_ncsig = g_nssig = 0; g_shares = 1; g_pad = 0; g_cec = 0;
+    g_ncgrp = g_nsgrp = g_ncsig = g_nssig = 0; g_shares = 1; g_pad = 0; g_cec = 0; g_spsk = 1; g_psklen = 0; g_rotate = 0;
     for (int i = 0; i < n; i++) {
         char *eq = strchr(a[i], '='); if (!eq) continue; *eq = 0; char *v = eq + 1;
         if (!strcmp(a[i], "cv")) c.ncver = parse_list(v, c.cver, 4);
@@ -315,6 +334,11 @@ static void do_new(char **a, int n)
         else if (!strcmp(a[i], "sig")) g_ncsig = parse_u16(v, g_csig, 16, 16);
         else if (!strcmp(a[i], "ssig")) g_nssig = parse_u16(v, g_ssig, 16, 16);
         else if (!strcmp(a[i], "pad")) g_pad = atoi(v);
+        else if (!strcmp(a[i], "psk")) c.psk = atoi(v);
+        else if (!strcmp(a[i], "smaxed")) c.smaxed = atoi(v);
+        else if (!strcmp(a[i], "spsk")) g_spsk = atoi(v);
+        else if (!strcmp(a[i], "psklen")) g_psklen = atoi(v);
+        else if (!strcmp(a[i], "rotate")) g_rotate = atoi(v);
         else if (!strcmp(a[i], "ec")) g_cec = atoi(v) == 256 ? SSL_OPT_SECP256R1 : atoi(v) == 384 ? SSL_OPT_SECP384R1 : atoi(v) == 521 ? SSL_OPT_SECP521R1 : 0;
     }
     g_logging = 0;                 /* deleting the previous pair is not part of the new scenario */
